@@ -409,9 +409,31 @@ macro_rules! float_ctor_mod {
                                 let open = mx == mn || !mn.is_finite() || !mx.is_finite() || !(mx - mn).is_finite() || sh == F::INFINITY;
                                 let exp = if open && allowed.is_empty() { Expect::unspecified() } else if open { Expect { spec: false, allowed } } else { Expect { spec: true, allowed } };
                                 tpm.judge(&args, guarded(|| Pert::new(mn, mx).with_shape(sh).with_mode(mo)), exp);
-                                // with_mean(mean = mo): judged only on the panic side (mode implied in exact arithmetic is
-                                // a borderline computation; Appendix A)
-                                tpe.judge(&args, guarded(|| Pert::new(mn, mx).with_shape(sh).with_mean(mo)), Expect::unspecified());
+                                // with_mean(mean = mo): as with_mode of the mode implied by the documented relation
+                                // mean = (min + max + shape * mode) / (shape + 2), judged only when that mode is clearly
+                                // inside or clearly outside [min, max] (farther than a rounding margin from both bounds),
+                                // everything is finite, max > min and shape > 0 (Appendix A)
+                                let exp = {
+                                    let (a, b, m, k) = (mn as f64, mx as f64, mo as f64, sh as f64);
+                                    let fin = a.is_finite() && b.is_finite() && m.is_finite() && k.is_finite() && (b - a).is_finite();
+                                    if !(fin && b > a && k > 0.0) {
+                                        Expect::unspecified()
+                                    } else {
+                                        let mode = ((k + 2.0) * m - a - b) / k;
+                                        let mag = (((k + 2.0) * m).abs() + a.abs() + b.abs()) / k + a.abs() + b.abs();
+                                        let margin = mag * 64.0 * (F::EPSILON as f64) + 64.0 * (F::MIN_POSITIVE as f64);
+                                        // intermediate overflow / underflow in the type F is not documented either way
+                                        let overflow = (k + 2.0) * m.abs() + a.abs() + b.abs() > (F::MAX as f64) / 4.0;
+                                        if !mode.is_finite() || overflow || (mode - a).abs() <= margin || (mode - b).abs() <= margin {
+                                            Expect::unspecified()
+                                        } else if mode < a || mode > b {
+                                            Expect { spec: true, allowed: vec!["ModeRange"] }
+                                        } else {
+                                            Expect::ok()
+                                        }
+                                    }
+                                };
+                                tpe.judge(&args, guarded(|| Pert::new(mn, mx).with_shape(sh).with_mean(mo)), exp);
                             }
                         }
                     }
